@@ -133,6 +133,7 @@ def run(run, args):
     run.oblige("correspondence: handle-table model = the real extern \"C\" functions after every call", not res[0], "%d sequences differ" % len(res[0]))
     run.oblige("every call returned 0 with the Rust effect or non-zero with the handle set untouched; no abort; all handles freed", not res[1], "")
     broken = standard_proof_obligations(run, "C17", THEOREMS) if THEOREMS else []
+    broken += source_corollaries(run, "C17s", ["C17s_no_abort", "C17s_errors_change_nothing", "C17s_no_use_after_free", "C17s_nonvacuous"], ("cbind",))
     if leaks:
         violation(run, {"failing_input": dict(by_id[leaks[0]["id"]], accounting=leaks[0]),
                         "what": "a call into the binding that reported an error (or a read) left memory allocated, or memory allocated by the "
